@@ -18,7 +18,12 @@ MODEL_VOS = ["Base/Conv.vo", "Mgr/Names.vo"]
 THEOREM = "C16: manager trace == VarNameMap model, names_inv consequences (coq/Props/C16.v)"
 
 
+def build_pointer(ctx):
+    return vf.cargo_build(["h_names"], features=["cfg-pointer"], no_default=True, target_sub="cfg-pointer")["h_names"]
+
+
 def build(ctx):
+    build_pointer(ctx)
     drv = vf.ocaml_build(ctx, "ExC16.v", "c16_main.ml", model_vos=MODEL_VOS)
     bins = vf.cargo_build(["h_names"])
     return bins["h_names"], drv
@@ -162,9 +167,10 @@ def run(ctx):
     ctx.samples = res["samples"]
     if bad:
         handle_bad(ctx, binp, drv, bad, (ctx.tier, nshards, corpus))
-    if thorough:
-        # the pointer-based manager: same wrappers, other crate
-        pbin = vf.cargo_build(["h_names"], features=["cfg-pointer"], no_default=True, target_sub="pointer")["h_names"]
+    if True:
+        # the pointer-based manager (crates/oxidd-manager-pointer has its own copy of the wrappers around
+        # VarNameMap): the quick case set once more on that build, in both tiers
+        pbin = build_pointer(ctx)
         res2 = run_shards(ctx, pbin, drv, 4, 4, "quick", tag="p")
         ok += res2["ok"]
         distinct |= {hash(("pointer", x)) for x in res2["distinct"]}
@@ -177,7 +183,7 @@ def run(ctx):
     vf.write_evidence(
         ctx, "proof",
         rule=("exhaustive call sequences (quick: length 4 over the 21-call alphabet on BDD, length 3 over the same alphabet on BCDD/ZBDD/TDD/MTBDD; "
-              "thorough: additionally length 6 over a 12-call alphabet on BDD and length 4 over it on the other kinds, pointer-based managers) with names from {\"\",a,b,c}, "
+              "thorough: additionally length 6 over a 12-call alphabet on BDD and length 4 over it on the other kinds; both tiers: the quick case set a second time on the pointer-based manager build) with names from {\"\",a,b,c}, "
               "all ordered pairs of calls after a prelude that creates handles (all kinds), random sequences of 8..40 calls with unicode names, "
               "out-of-range variables, argument maps built by add_unnamed/add_named/set_var_name/get_or_add, handle creation and gc"
               + (", reordering" if reorder else "") +
